@@ -64,6 +64,8 @@ pub enum OpKind {
     Wait,
     Exit,
     KillMark,
+    /// a spawned tokio task becoming runnable (start order is the scheduler's choice)
+    TaskStart,
 }
 
 #[derive(Clone, Copy, Debug, PartialEq, Eq)]
@@ -225,6 +227,9 @@ pub struct PendingOp {
     pub exec: ExecFn,
     pub waker: Option<Waker>,
     pub is_async: bool,
+    /// the issuer no longer waits for it (a tokio::fs::File dropped with a write in flight):
+    /// it still executes; its result is discarded
+    pub detached: bool,
 }
 
 pub type ProgramFn = Box<dyn FnOnce() -> i32 + Send>;
@@ -837,9 +842,11 @@ impl State {
         let out = (op.exec)(self, &mut rec);
         self.finish_rec(rec);
         let p = &mut self.procs[pid as usize];
-        p.results.insert(op.id, out);
-        if let Some(w) = op.waker {
-            p.wake_list.push(w);
+        if !op.detached {
+            p.results.insert(op.id, out);
+            if let Some(w) = op.waker {
+                p.wake_list.push(w);
+            }
         }
         p.baton = true;
         p.status = Status::Running;
@@ -999,6 +1006,7 @@ pub fn syscall<T: Send + 'static>(
         exec: Box::new(move |s, r| Box::new(exec(s, r)) as Box<dyn Any + Send>),
         waker: None,
         is_async: false,
+        detached: false,
     });
     loop {
         st.procs[pid as usize].status = Status::Parked;
@@ -1111,6 +1119,7 @@ impl<T: Send + 'static> AsyncOp<T> {
                     exec: Box::new(move |s, r| Box::new(exec(s, r)) as Box<dyn Any + Send>),
                     waker: Some(cx.waker().clone()),
                     is_async: true,
+                    detached: false,
                 });
                 drop(st);
                 bump_activity();
@@ -1150,8 +1159,77 @@ impl<T: Send + 'static> AsyncOp<T> {
     }
 }
 
+impl<T> AsyncOp<T> {
+    /// Give up waiting without cancelling: the registered op stays pending and will still
+    /// be executed. Returns (pid, op id) if the op is registered and not yet consumed.
+    pub fn detach(&mut self) -> Option<(Arc<Shared>, Pid, u64)> {
+        if let AsyncOp::Registered { id, pid, shared } = self {
+            let r = (shared.clone(), *pid, *id);
+            // replacing the value drops the Registered variant: tell Drop not to deregister
+            DETACHING.with(|d| d.set(true));
+            *self = AsyncOp::Done;
+            DETACHING.with(|d| d.set(false));
+            return Some(r);
+        }
+        None
+    }
+}
+
+thread_local! { static DETACHING: Cell<bool> = const { Cell::new(false) }; }
+
+/// A file handle was dropped while its last write is still in flight (tokio::fs::File does
+/// not wait in Drop): keep the write pending, discard its result, and close the descriptor
+/// only after it has been executed.
+pub fn defer_close_after(sh: &Arc<Shared>, pid: Pid, write_id: u64, ofd: u64) {
+    let mut st = lock(sh);
+    if st.procs[pid as usize].killed {
+        return;
+    }
+    let still_pending = {
+        let p = &mut st.procs[pid as usize];
+        let mut found = false;
+        for o in p.pending.iter_mut() {
+            if o.id == write_id {
+                o.detached = true;
+                o.waker = None;
+                found = true;
+            }
+        }
+        p.results.remove(&write_id);
+        found
+    };
+    if !still_pending {
+        let mut rec = st.blank_rec(pid, OpKind::Close, false);
+        st.sys_close(pid, ofd, &mut rec);
+        st.finish_rec(rec);
+        return;
+    }
+    let id = {
+        let p = &mut st.procs[pid as usize];
+        p.next_op += 1;
+        p.next_op
+    };
+    st.procs[pid as usize].pending.push(PendingOp {
+        id,
+        kind: OpKind::Close,
+        mutating: false,
+        enabled: Box::new(move |s: &State| !s.procs[pid as usize].pending.iter().any(|o| o.id == write_id)),
+        exec: Box::new(move |s, r| {
+            let p = r.pid;
+            s.sys_close(p, ofd, r);
+            Box::new(()) as Box<dyn Any + Send>
+        }),
+        waker: None,
+        is_async: true,
+        detached: true,
+    });
+}
+
 impl<T> Drop for AsyncOp<T> {
     fn drop(&mut self) {
+        if DETACHING.with(|d| d.get()) {
+            return;
+        }
         if let AsyncOp::Registered { id, pid, shared } = self {
             let mut st = lock(shared);
             let p = &mut st.procs[*pid as usize];
@@ -1279,6 +1357,7 @@ pub fn create_proc(st: &mut State, sh: &Arc<Shared>, spec: SpawnSpec) -> Pid {
         }),
         waker: None,
         is_async: false,
+        detached: false,
     });
     let shared = sh.clone();
     let program = spec.program;
@@ -1337,6 +1416,16 @@ pub fn proc_exit(sh: &Arc<Shared>, pid: Pid, kind: ExitKind) {
         kind
     };
     if !was_killed {
+        // runtime shutdown waits for the blocking operations already started: execute what is
+        // still detached-pending, in order
+        loop {
+            let idx = st.procs[pid as usize].pending.iter().position(|o| o.detached && (o.enabled)(&st));
+            let Some(i) = idx else { break };
+            let op = st.procs[pid as usize].pending.remove(i);
+            let mut rec = st.blank_rec(pid, op.kind, op.mutating);
+            let _ = (op.exec)(&mut st, &mut rec);
+            st.finish_rec(rec);
+        }
         let mut rec = st.blank_rec(pid, OpKind::Exit, false);
         rec.ok = true;
         st.release_proc(pid);
